@@ -106,6 +106,7 @@ func checkC08(P *Prog, r *Result) {
 	}
 	r.floor("C08/single-owner", 8)
 	P.checkReleaseInto(r, "C08/single-owner-release")
+	P.checkReleaseMultiplicity(r, "C08/single-owner-multiplicity")
 
 	// informational: globals read by execution code
 	reads := map[string]bool{}
